@@ -88,6 +88,7 @@ func main() {
 		os.Exit(2)
 	}
 	eng.verbose = o.verbose
+	eng.blockCanaries = o.tier == "thorough"
 	switch cmd {
 	case "list":
 		var keys []string
